@@ -25,6 +25,10 @@ GATES = ["names_checked", "indexed_names", "nested_names", "three_digit_names", 
          "messages_aligned_by_position"]
 
 
+FOREIGN_NAMES = ("DF001_01", "DF001_1_02", "cno_101", "gnod_03_06", "DF002_01", "DF003_02_03", "DF422_05", "IDF001_01",
+                 "foo", "foo_01", "PRN", "CELLSIG", "DF", "_01", "DF001_", "DF001__01", "ExtSatInfo", "DF404", "NSat_01")
+
+
 def check_message(ctx, identity, enc):
     import pyrtcm
     from pyrtcm import RTCMMessage
@@ -63,8 +67,18 @@ def check_message(ctx, identity, enc):
         key = f["key"]
         params = {"name": name, "key": key, "index": list(idx), "identity": identity}
         want_desc = fields[key][3]
+        if len(ctx.seen) % 97 == 0:
+            # names nobody's parser produces (unit-test vectors, indexed plain fields, junk) asked in between: the
+            # helpers keep no memory, so this must not matter for the names that do occur
+            for junk in FOREIGN_NAMES:
+                for fn in (datadesc, att2idx, att2name):
+                    try:
+                        fn(junk)
+                    except Exception:
+                        pass
+            ctx.hit("foreign_names_in_between")
         try:
-            got = datadesc(name)
+            got = datadesc(name[:1] + name[1:])  # (a fresh temporary string object, freed right after the call)
         except Exception as e:
             ctx.violation("datadesc-raised", f"datadesc({name!r}) raised {type(e).__name__}: {e} (field {key}, "
                           f"message {identity})", params)
@@ -75,8 +89,8 @@ def check_message(ctx, identity, enc):
         if idx:
             want_idx = idx[0] if len(idx) == 1 else tuple(idx)
             try:
-                gi = att2idx(name)
-                gn = att2name(name)
+                gi = att2idx(name[:1] + name[1:])
+                gn = att2name(name[:1] + name[1:])  # temporaries: the same address is reused from call to call
             except Exception as e:
                 ctx.violation("index-helper-raised", f"att2idx/att2name({name!r}) raised {type(e).__name__}: {e}", params)
                 return False
@@ -105,6 +119,19 @@ def check_message(ctx, identity, enc):
 def run(ctx):
     rng = ctx.rng
     ctx.seen = set()
+    from vf import common
+
+    for k_, (name_, fr_) in enumerate(common.recorded_frames()):
+        if not ctx.mine(k_):
+            continue
+        ident_ = common.expected_identity(fr_[3:-3])
+        try:
+            enc_ = refmodel.decode(ident_, fr_[3:-3])
+        except Exception:
+            continue
+        if not check_message(ctx, ident_, enc_):
+            return
+        ctx.hit("recorded_frames_checked")
     ids = [i for i in refmodel.identities() if refmodel.reachable(i)]
     for k, identity in enumerate(ids):
         if not ctx.mine(k):
